@@ -212,7 +212,8 @@ fn write_maybe_rpx_dimension(
     unit: &CowRcStr,
 ) {
     let unit_str: &str = &unit;
-    if unit_str == "rpx" {
+    // (units are ASCII case-insensitive)
+    if unit_str.eq_ignore_ascii_case("rpx") {
         // (in double precision: `value * 100.` must not overflow before the division)
         let new_value = (value as f64 * 100. / ss.options.rpx_ratio as f64) as f32;
         let new_int_value = if (new_value.round() - new_value).abs() <= f32::EPSILON {
